@@ -10,8 +10,23 @@ from props import PROPS, NOT_APPLICABLE, HOOK_COMMITS  # noqa: E402
 
 ids = ["C%02d" % i for i in range(1, 21)]
 checks = []
+import re
+
+
+def ready(c):
+    """a property is claimed once its Props file holds real theorems (work in progress sets `wip: True`)"""
+    if c.get("wip"):
+        return False
+    try:
+        body = open(os.path.join(ROOT, "coq", c["props_file"])).read()
+    except OSError:
+        return False
+    return len(re.findall(r"^\s*Theorem\s", body, re.M)) >= 2
+
+
+WIP = [pid for pid in ids if pid in PROPS and not ready(PROPS[pid])]
 for pid in ids:
-    if pid not in PROPS:
+    if pid not in PROPS or pid in WIP:
         continue
     c = PROPS[pid]
     checks.append({
@@ -42,7 +57,7 @@ m = {
         {"name": "verify", "path": "verify", "serves_properties": claimed, "kind_free_text": "python driver: translate -> make proofs -> Print Assumptions audit -> correspondence -> known findings -> evidence"},
     ],
     "checks": checks,
-    "not_applicable": [{"property_id": p, "reason": NOT_APPLICABLE.get(p, "check not built yet in this session (planned, DESIGN.md section 9); not a claim that the technique cannot apply")} for p in ids if p not in PROPS],
+    "not_applicable": [{"property_id": p, "reason": NOT_APPLICABLE.get(p, "check not built yet in this session (planned, DESIGN.md section 9); not a claim that the technique cannot apply")} for p in ids if p not in PROPS or p in WIP],
     "notes": "see DESIGN.md; known_findings.json lists fixed and known defects",
 }
 with open(os.path.join(ROOT, "MANIFEST.json"), "w") as f:
